@@ -317,6 +317,14 @@ def registered(f): return lambda g: g
 @registered(lambda x: x.decoy)
 def after_deco(x): return x.real
 def nothing(x): return
+def make_shift(fn, k):
+    def shift_helper(x): return fn(x).plus(k)
+    return shift_helper
+plus_1 = make_shift(ident, 1)
+plus_1_then_10 = make_shift(plus_1, 10)
+def recursive_helper(x): return recursive_helper(x.next) if x.more else x.last
+def d18(ds): return ds.Select(lambda e: (plus_1_then_10(e.v), plus_1(e.w)))
+def p18(): return lambda e: (plus_1_then_10(e.v), plus_1(e.w))
 def d9(ds): return ds.Select(lambda e: outer_kw(e))
 def d10(ds): return ds.Select(lambda e: add_to_all(e))
 def d11(ds): return ds.Select(lambda x: table(x))
@@ -354,10 +362,10 @@ def p6(): return lambda e: e.jets.Select(lambda j: two(j, e))
 
 def directed(ctx):
     m = modgen.load(DIRECTED, "c05d")
-    env = {n: getattr(m, n) for n in ("ident", "const", "sh", "addy", "two", "outer", "add3", "deep", "inner_kw", "outer_kw", "add_to_all", "table", "five_plus", "shifted", "corrected", "next_one", "after_deco", "nothing")}
+    env = {n: getattr(m, n) for n in ("ident", "const", "sh", "addy", "two", "outer", "add3", "deep", "inner_kw", "outer_kw", "add_to_all", "table", "five_plus", "shifted", "corrected", "next_one", "after_deco", "nothing", "plus_1", "plus_1_then_10")}
     tags = ["bare-parameter", "constant-body", "nested-lambda-shadows-parameter", "argument-captured-by-inner-binder", "reordered-keywords", "helper-calls-helper", "call-in-nested-lambda", "curried-two-deep-lambdas-argument-names-innermost", "two-deep-nested-lambdas-argument-names-innermost",
             "keyword-only-parameter-hides-argument", "default-of-a-lambda-that-stays", "new-name-already-bound-in-scope", "keyword-of-a-call-that-stays", "default-bound-at-definition",
-            "bound-method", "functools-wraps-wrapper", "lambda-on-the-decorator-line", "bare-return"]
+            "bound-method", "functools-wraps-wrapper", "lambda-on-the-decorator-line", "bare-return", "closures-of-one-factory-calling-each-other"]
     for i, tag in enumerate(tags):
         ctx.case("directed:" + tag, True)
         expected = probe.behaviour(getattr(m, f"p{i}")())
